@@ -474,6 +474,26 @@ func main() {
 			env.Add(fmt.Sprintf("PinCase %d %s", 30+i, obs), fmt.Sprintf("[route %d] %s => %v", route, src, o.Val), "pinned-arguments-dup-param", true)
 		}
 	}
+	// pinned probes of the value of a block / try / if-branch block / with that produces no value (finding class 5,
+	// C01-valueless-block-undefined: otto gives undefined, ES5 12.1 the empty completion, so the 7 survives); 44, 45 controls
+	for i, src := range []string{`7; { }`, `7; try { } finally { }`, `7; if (true) { }`, `7; with ({}) { }`, `7; if (false) 5;`, `7; { 8; }`} {
+		for route := 0; route < 2; route++ {
+			vmP := otto.New()
+			var o Outcome
+			if route == 0 {
+				o = RunJS(vmP, src)
+			} else {
+				o = Guard(func() (otto.Value, error) { return vmP.Eval(src) })
+			}
+			obs := "[]"
+			if o.Err == nil && o.Panic == nil {
+				if n, err := strconv.ParseInt(strings.TrimSpace(o.Val.String()), 10, 64); err == nil {
+					obs = "[" + Cz(n) + "]"
+				}
+			}
+			env.Add(fmt.Sprintf("PinCase %d %s", 40+i, obs), fmt.Sprintf("[route %d] %s => %v", route, src, o.Val), "pinned-valueless-block", true)
+		}
+	}
 	// generate every program first (one PRNG, deterministic), run them on otto in parallel, record them in order
 	type job struct {
 		full   *fulljs.Program
